@@ -680,6 +680,30 @@ NOPANIC = r"""
 """
 
 
+DEBUGSECRET = r"""
+    // C19 battery: the Debug rendering of a key pair does not contain its private key document in any usual rendering
+    use rcgen::*;
+    for alg in [&PKCS_ECDSA_P256_SHA256, &PKCS_ECDSA_P384_SHA384, &PKCS_ED25519] {
+        let key = KeyPair::generate_for(alg).unwrap();
+        let der = key.serialize_der();
+        let shown = format!("{:?} {:#?}", key, key);
+        // bytes 40..56 of the PKCS#8 document lie inside the private scalar / seed for all three key types (the tail of the document is the
+        // public key, which ring's Debug output legitimately shows)
+        let secret = &der[40..56];
+        let dec = format!("{:?}", secret); let dec_inner = &dec[1..dec.len() - 1];
+        let hex: String = secret.iter().map(|b| format!("{:02x}", b)).collect();
+        let hex_upper = hex.to_uppercase();
+        for window in [dec_inner, &hex[..], &hex_upper[..]] {
+            assert!(!shown.contains(window), "the Debug output of a key pair contains part of its private key");
+        }
+        let pem = key.serialize_pem();
+        let b64: String = pem.lines().filter(|l| !l.starts_with("-----")).collect();
+        assert!(!shown.contains(&b64[56..76]), "the Debug output of a key pair contains its private key in base64");
+        assert!(shown.contains("elided") || !shown.contains("serialized_der"), "serialized_der is shown without a placeholder");
+    }
+"""
+
+
 def program(cex: dict) -> str:
     op = cex.get("op")
     pre = ", ".join(f"({t}, {v})" for (t, v) in cex.get("pre", []))
@@ -753,6 +777,8 @@ def program(cex: dict) -> str:
         body = PEM
     if op == "parse-no-panic":
         body = NOPANIC
+    if op == "debug-secret":
+        body = DEBUGSECRET
     return PRELUDE + "fn main() {\n" + body + "    println!(\"replay-ok\");\n}\n"
 
 
